@@ -11,3 +11,5 @@ UNITS = [R.unit_range_validate()]
 LEVEL_TEXT = "Deductive proof of the real Range.validate against the statement's acceptance clause (loop invariant, termination, frame); more functions follow."
 LEVEL_NOTE = "Trusts: the pyvc encoding of the Python subset (audited by the native oracle cross-check on every run), z3/cvc5."
 TECHNIQUE = "contract-based deductive verification: VCs generated from the ast of the real functions, discharged by z3/cvc5"
+from contracts import ranges_init as RI
+UNITS += RI.units_range_init()
